@@ -224,7 +224,14 @@ CtxPreds ==
     Bin("=", Fn0("string-length"), NumL(2)), Bin("=", Fn0("normalize-space"), StrL("12")), Bin("=", Fn0("number"), NumL(12)),
     Bin("=", Fn0("position"), Fn0("last")), Fn1("lang", StrL("en")), Bin("=", Fn0("namespace-uri"), [t |-> "str", v |-> <<>>]),
     Fn1("lang", StrL("EN")), Fn1("lang", StrL("fr")), Fn1("lang", StrL("en-US")), Fn1("lang", StrL("e")),
-    Bin("=", Fn0("name"), [t |-> "str", v |-> Cp("xml") \o Cp(":") \o Cp("lang")]) }
+    Bin("=", Fn0("name"), [t |-> "str", v |-> Cp("xml") \o Cp(":") \o Cp("lang")]),
+    \* one-step REVERSE-axis node-sets taken from a non-root context node, where their (document) order shows:
+    \* the first node in document order names the set, (E)[1] and (E)[last()] pick by document order
+    Bin("=", Fn1("name", Rel(<<Step("preceding-sibling", AnyT, <<>>)>>)), StrL("b")),
+    Bin("=", Fn1("name", Rel(<<Step("ancestor", AnyT, <<>>)>>)), StrL("a")),
+    Bin("=", Fn1("string", Rel(<<Step("preceding", TypeT("node"), <<>>)>>)), StrL("ab")),
+    Fn1("boolean", Filt(Rel(<<Step("preceding-sibling", TypeT("node"), <<>>)>>), <<NumL(1)>>, <<Step("self", NameT("b"), <<>>)>>)),
+    Fn1("boolean", Filt(Rel(<<Step("ancestor-or-self", AnyT, <<>>)>>), <<Fn0("last")>>, <<Step("self", NameT("b"), <<>>)>>)) }
 
 \* operator precedence / associativity family (C08)
 Atoms == { NumL(1), NumL(2), NumL(3) }
